@@ -126,6 +126,216 @@ func dirStructureShape() (keyIsName, pathJoinsName, ensureByElement bool) {
 	return
 }
 
+
+// scopeIfCond finds, in function fn (receiver type recv, "" for a plain function) of file rel, the `if` statement
+// whose body produces the error text msg, and returns its condition as source text.  Exactly one such statement
+// must exist, it must have no init statement and no else branch, and its body must end in a return.
+func scopeIfCond(rel, fn, recv, msg string) string {
+	fset, f := parseFile(rel)
+	fd := findFunc(f, fn, recv)
+	if fd == nil || fd.Body == nil {
+		die("%s: function %s not found", rel, fn)
+	}
+	var found []*ast.IfStmt
+	ast.Inspect(fd.Body, func(n ast.Node) bool {
+		is, ok := n.(*ast.IfStmt)
+		if !ok {
+			return true
+		}
+		has := false
+		for _, st := range is.Body.List { // direct statements of the body only
+			ast.Inspect(st, func(m ast.Node) bool {
+				if _, nested := m.(*ast.IfStmt); nested {
+					return false
+				}
+				if bl, ok := m.(*ast.BasicLit); ok && bl.Kind == token.STRING && strings.Contains(bl.Value, msg) {
+					has = true
+				}
+				return true
+			})
+		}
+		if has {
+			found = append(found, is)
+		}
+		return true
+	})
+	if len(found) != 1 {
+		die("%s: %s: expected exactly one if statement producing %q, found %d", rel, fn, msg, len(found))
+	}
+	is := found[0]
+	if is.Else != nil || len(is.Body.List) == 0 {
+		die("%s: %s: the if statement producing %q has an else branch / empty body", rel, fn, msg)
+	}
+	if _, ok := is.Body.List[len(is.Body.List)-1].(*ast.ReturnStmt); !ok {
+		die("%s: %s: the if statement producing %q does not end in a return", rel, fn, msg)
+	}
+	if is.Init != nil { // reported as written: the theorem over the generated text then shows the difference
+		var sb strings.Builder
+		if err := printerFprintNode(&sb, fset, is.Init); err != nil {
+			die("print stmt: %v", err)
+		}
+		return sb.String() + "; " + exprString(fset, is.Cond)
+	}
+	return exprString(fset, is.Cond)
+}
+
+// assignedIn reports whether the identifier name is (re)assigned, re-declared, incremented, used as a range variable
+// or has its address taken anywhere below node n (other than by the one statement `except`).
+func assignedIn(n ast.Node, name string, except ast.Stmt) bool {
+	hit := false
+	ast.Inspect(n, func(m ast.Node) bool {
+		if m == nil || hit {
+			return false
+		}
+		if st, ok := m.(ast.Stmt); ok && except != nil && st == except {
+			return false
+		}
+		isName := func(e ast.Expr) bool { id, ok := e.(*ast.Ident); return ok && id.Name == name }
+		switch x := m.(type) {
+		case *ast.AssignStmt:
+			for _, l := range x.Lhs {
+				if isName(l) {
+					hit = true
+				}
+			}
+		case *ast.IncDecStmt:
+			hit = hit || isName(x.X)
+		case *ast.RangeStmt:
+			hit = hit || (x.Key != nil && isName(x.Key)) || (x.Value != nil && isName(x.Value))
+		case *ast.UnaryExpr:
+			hit = hit || (x.Op == token.AND && isName(x.X))
+		case *ast.ValueSpec:
+			for _, id := range x.Names {
+				hit = hit || id.Name == name
+			}
+		case *ast.FuncLit:
+			for _, fl := range x.Type.Params.List {
+				for _, id := range fl.Names {
+					hit = hit || id.Name == name
+				}
+			}
+		}
+		return !hit
+	})
+	return hit
+}
+
+// unpackLoopShape reads, from updater/unpacking.go, the shape facts the model of the entry loop rests on:
+//
+//	everyEntryChecked: the loop over archiveReader.File starts with `dstPath := filepath.Join(tmpDir,
+//	  filepath.FromSlash(file.Name))`, immediately followed — as a direct, unconditional statement of the loop body —
+//	  by the scope check (the if statement producing "outside of the unpack dir", ending in a return); neither
+//	  dstPath nor tmpDir is assigned anywhere else in the loop; the body has no continue / goto / label; the one
+//	  call of copyFromZipArchive comes after the check and gets (file, dstPath);
+//	copyUsesGivenPath: copyFromZipArchive never assigns, re-declares or takes the address of its path parameter and
+//	  every call into package os that takes a path (Mkdir, OpenFile, …) gets that parameter itself as first argument.
+func unpackLoopShape() (everyEntryChecked, copyUsesGivenPath bool, scopeCond string) {
+	const rel = "updater/unpacking.go"
+	scopeCond = scopeIfCond(rel, "unpackZipArchive", "Resource", "outside of the unpack dir")
+	fset, f := parseFile(rel)
+	fd := findFunc(f, "unpackZipArchive", "Resource")
+	var loops []*ast.RangeStmt
+	ast.Inspect(fd.Body, func(n ast.Node) bool {
+		if rs, ok := n.(*ast.RangeStmt); ok && exprString(fset, rs.X) == "archiveReader.File" {
+			loops = append(loops, rs)
+		}
+		return true
+	})
+	if len(loops) != 1 {
+		die("%s: expected exactly one loop over archiveReader.File, found %d", rel, len(loops))
+	}
+	loop := loops[0]
+	fileVar := ""
+	if id, ok := loop.Value.(*ast.Ident); ok {
+		fileVar = id.Name
+	}
+	body := loop.Body.List
+	everyEntryChecked = fileVar != "" && len(body) >= 3
+	if everyEntryChecked {
+		as, ok := body[0].(*ast.AssignStmt)
+		everyEntryChecked = ok && as.Tok == token.DEFINE && len(as.Lhs) == 1 && len(as.Rhs) == 1 &&
+			exprString(fset, as.Lhs[0]) == "dstPath" &&
+			exprString(fset, as.Rhs[0]) == "filepath.Join(tmpDir, filepath.FromSlash("+fileVar+".Name))"
+	}
+	if everyEntryChecked {
+		is, ok := body[1].(*ast.IfStmt)
+		everyEntryChecked = ok && is.Init == nil && is.Else == nil && exprString(fset, is.Cond) == scopeCond && len(is.Body.List) > 0
+		if everyEntryChecked {
+			_, isRet := is.Body.List[len(is.Body.List)-1].(*ast.ReturnStmt)
+			everyEntryChecked = isRet && !assignedIn(is, "dstPath", nil) && !assignedIn(is, "tmpDir", nil)
+		}
+	}
+	if everyEntryChecked {
+		everyEntryChecked = !assignedIn(loop.Body, "dstPath", body[0]) && !assignedIn(loop.Body, "tmpDir", nil) && !assignedIn(loop.Body, fileVar, nil)
+		nCalls := 0
+		ast.Inspect(loop.Body, func(n ast.Node) bool {
+			switch x := n.(type) {
+			case *ast.BranchStmt, *ast.LabeledStmt:
+				everyEntryChecked = false
+			case *ast.CallExpr:
+				if exprString(fset, x.Fun) == "copyFromZipArchive" {
+					nCalls++
+					if len(x.Args) != 2 || exprString(fset, x.Args[0]) != fileVar || exprString(fset, x.Args[1]) != "dstPath" || x.Pos() < body[1].End() {
+						everyEntryChecked = false
+					}
+				}
+			}
+			return true
+		})
+		everyEntryChecked = everyEntryChecked && nCalls == 1
+	}
+	// the check must not be disabled from outside the loop either: tmpDir is assigned exactly once in the function
+	nTmp := 0
+	ast.Inspect(fd.Body, func(n ast.Node) bool {
+		if as, ok := n.(*ast.AssignStmt); ok {
+			for _, l := range as.Lhs {
+				if id, ok := l.(*ast.Ident); ok && id.Name == "tmpDir" {
+					nTmp++
+				}
+			}
+		}
+		return true
+	})
+	everyEntryChecked = everyEntryChecked && nTmp == 1
+
+	cp := findFunc(f, "copyFromZipArchive", "")
+	if cp == nil || cp.Body == nil || cp.Type.Params == nil {
+		die("%s: copyFromZipArchive not found", rel)
+	}
+	var params []string
+	for _, fl := range cp.Type.Params.List {
+		for _, id := range fl.Names {
+			params = append(params, id.Name)
+		}
+	}
+	if len(params) != 2 {
+		die("%s: copyFromZipArchive: expected (archiveFile, dstPath), got %v", rel, params)
+	}
+	pathParam := params[1]
+	copyUsesGivenPath = !assignedIn(cp.Body, pathParam, nil)
+	nOS := 0
+	ast.Inspect(cp.Body, func(n ast.Node) bool {
+		ce, ok := n.(*ast.CallExpr)
+		if !ok {
+			return true
+		}
+		fn := exprString(fset, ce.Fun)
+		if strings.HasPrefix(fn, "os.") || strings.HasPrefix(fn, "ioutil.") || strings.HasPrefix(fn, "renameio.") || strings.HasPrefix(fn, "utils.") {
+			nOS++
+			if len(ce.Args) == 0 || exprString(fset, ce.Args[0]) != pathParam {
+				copyUsesGivenPath = false
+			}
+		}
+		return true
+	})
+	copyUsesGivenPath = copyUsesGivenPath && nOS == 2 // os.Mkdir and os.OpenFile
+	return
+}
+
+func leanStr(s string) string {
+	return "\"" + strings.NewReplacer("\\", "\\\\", "\"", "\\\"", "\n", "\\n", "\t", "\\t").Replace(s) + "\""
+}
+
 // genPaths extracts the string constants the path scope checks of C18 depend on.
 func genPaths() {
 	api := stringConst("api/endpoints.go", "apiV1Path")
@@ -143,6 +353,18 @@ func genPaths() {
 	fmt.Fprintf(&sb, "def childDirPathJoinsGivenName : Bool := %v\n\n", pj)
 	sb.WriteString("/-- utils/structure.go `ensure`: `Children` is read exactly once, as `Children[pathDirs[0]]`. -/\n")
 	fmt.Fprintf(&sb, "def ensureLooksUpByElement : Bool := %v\n\n", eb)
+	every, given, unpackCond := unpackLoopShape()
+	sb.WriteString("/-- updater/unpacking.go `unpackZipArchive`: every pass of the loop over the archive entries computes `dstPath` from the\n    entry's own name and runs the scope check on it unconditionally, before the one call `copyFromZipArchive(file, dstPath)`. -/\n")
+	fmt.Fprintf(&sb, "def unpackLoopChecksEveryEntry : Bool := %v\n\n", every)
+	sb.WriteString("/-- updater/unpacking.go `copyFromZipArchive`: the path parameter is never changed and is what `os.Mkdir` / `os.OpenFile` get. -/\n")
+	fmt.Fprintf(&sb, "def copyUsesGivenPath : Bool := %v\n\n", given)
+	sb.WriteString("/-- The conditions of the scope checks, as written (the `if` statements that produce the components' scope errors). -/\n")
+	fmt.Fprintf(&sb, "def unpackScopeCond : String := %s\n", leanStr(unpackCond))
+	fmt.Fprintf(&sb, "def fstreeScopeCond : String := %s\n", leanStr(scopeIfCond("database/storage/fstree/fstree.go", "buildFilePath", "FSTree", "key integrity check failed")))
+	fmt.Fprintf(&sb, "def fstreeCleanCond : String := %s\n", leanStr(scopeIfCond("database/storage/fstree/fstree.go", "buildFilePath", "FSTree", "key is not a clean path")))
+	fmt.Fprintf(&sb, "def scanScopeCond : String := %s\n", leanStr(scopeIfCond("updater/storage.go", "ScanStorage", "ResourceRegistry", "not within storage")))
+	fmt.Fprintf(&sb, "def dirStructureScopeCond : String := %s\n", leanStr(scopeIfCond("utils/structure.go", "EnsureAbsPath", "DirStructure", "outside of DirStructure scope")))
+	fmt.Fprintf(&sb, "def bridgeScopeCond : String := %s\n\n", leanStr(scopeIfCond("api/api_bridge.go", "callAPI", "", "violates scope")))
 	sb.WriteString("end PB.Gen.Paths\n")
 	write("Paths.lean", sb.String())
 }
